@@ -59,8 +59,8 @@ ASSUMPTIONS = [
     "an integer/bool mismatch between modes is excused as a float32 threshold tie (counted, not judged) only if "
     "perturbing the float inputs of the reference call by 3e-6 relative also flips it",
     "conditioning triage (only reached when a float leaf exceeds the tolerance above): the reference call is repeated "
-    "three times with every float argument -- environment parameters included -- perturbed by 2e-7 relative (about two "
-    "float32 ulps); a cross-mode difference of at most 30x the largest change these probes cause on that leaf is float32 "
+    "twelve times with every float argument -- environment parameters included -- perturbed by 2e-7 or 8e-7 relative (about "
+    "two / eight float32 ulps); a cross-mode difference of at most 30x the largest change these probes cause on that leaf is float32 "
     "rounding amplified by the function's own conditioning (MuJoCo contact solver right after a reset, chaotic "
     "dynamics), counted in ill_conditioned_differences_excused with the worst ratio in the unit notes, not judged",
     "twin comparison of collections: the same triage on the single-environment collection (policy parameters, "
@@ -474,9 +474,13 @@ class _EnvJudge:
             self.viol(f"{fn}-jit-answer-depends-on-call-history", {"fn": fn, "after": "same argument values in rebuilt arrays",
                                                                    "diff": _cmp(want, o0, lambda p, f: (0.0, 0.0), fn)})
             return {}
-        for _ in range(3):
-            ps, pa, pns = _perturb_inputs(self.ctx.rng, s, a, ns, scale=ULP_SCALE, abs_scale=0.0)
-            env_p = _perturb_floats(self.ctx.rng, self.env, ULP_SCALE)
+        # twelve probes, half at two ulps and half at eight: an iterative solver right after a reset answers a
+        # rounding-sized perturbation with a *jump* between two branches; three probes were seen to land on the
+        # reference's side of such a jump all three times (G1Standing.initial, 1 case in 80)
+        for j in range(12):
+            sc_j = ULP_SCALE if j % 2 == 0 else 4 * ULP_SCALE
+            ps, pa, pns = _perturb_inputs(self.ctx.rng, s, a, ns, scale=sc_j, abs_scale=0.0)
+            env_p = _perturb_floats(self.ctx.rng, self.env, sc_j)
             try:
                 o = self.jf[fn](env_p, ps, pa, pns, k)
             except Exception:
